@@ -5,33 +5,38 @@ From Coq Require Import List NArith ZArith Bool Arith Sorting.Sorted Sorting.Per
 From D2P Require Import Str Err Xml TableTypes Tables Merge Package Content Save BulletsFacts MergeFacts SaveFacts Fmt Bullets Collector Walk ShapeFacts TokFacts FrameFacts ReplaceFacts.
 Import ListNotations.
 
-(* the text carried by the nodes that replace a text node (line breaks counted as newlines) is exactly str.replace of the node's text, provided the result has no line separator other than newline and does not end in one (the clause the proof forces) *)
+(* the text carried by the nodes that replace a text node (line breaks counted as newlines) is exactly str.replace of the node's text, provided the result contains no carriage return *)
 Theorem C17_text_node :
   forall old new e eks c tx wuri nodes,
   str_eqb (e_local e) s_br = false -> e_text e = Some (c :: tx) ->
   contains old (c :: tx) = true -> e_wuri e = Some wuri ->
-  only_lf (replace old new (c :: tx)) -> replace old new (c :: tx) <> [] ->
-  last (replace old new (c :: tx)) 0 <> lf ->
+  no_cr (replace old new (c :: tx)) ->
   replace_node old new (AE e eks) = Ok nodes ->
   concat (map node_text nodes) = replace old new (c :: tx).
 Proof. exact replace_text_commutes. Qed.
 Print Assumptions C17_text_node.
 
-(* without side conditions it is join of splitlines of the replaced text *)
+(* without that side condition it is join of re.split(\r\n|\r|\n) of the replaced text *)
 Theorem C17_text_node_general :
   forall old new e eks c tx wuri nodes,
   str_eqb (e_local e) s_br = false -> e_text e = Some (c :: tx) ->
   contains old (c :: tx) = true -> e_wuri e = Some wuri ->
   replace_node old new (AE e eks) = Ok nodes ->
-  concat (map node_text nodes) = join [lf] (splitlines (replace old new (c :: tx))).
+  concat (map node_text nodes) = join [lf] (split_nl (replace old new (c :: tx))).
 Proof. exact replace_text_general. Qed.
 Print Assumptions C17_text_node_general.
 
-(* known finding D19: a replacement ending in a newline at the end of a text node loses that newline *)
-Theorem C17_trailing_newline_refuted :
-  join [lf] (splitlines [120; 10]) = [120].
-Proof. exact splitlines_trailing_newline_lost. Qed.
-Print Assumptions C17_trailing_newline_refuted.
+(* formerly finding D19, repaired in 101554e: a replacement ending in a newline keeps that line break *)
+Theorem C17_trailing_newline_kept :
+  join [lf] (split_nl [120; 10]) = [120; 10].
+Proof. exact split_nl_trailing_newline_kept. Qed.
+Print Assumptions C17_trailing_newline_kept.
+
+(* \r\n and \r in the replaced text become one line break each; no other character is a line separator *)
+Theorem C17_carriage_returns_become_line_breaks :
+  join [lf] (split_nl [97; 13; 10; 98; 13; 99]) = [97; 10; 98; 10; 99].
+Proof. exact split_nl_cr_becomes_lf. Qed.
+Print Assumptions C17_carriage_returns_become_line_breaks.
 
 (* what a hit produces: one copy of the node per line, a w:br between *)
 Theorem C17_nodes_produced :
@@ -39,7 +44,7 @@ Theorem C17_nodes_produced :
   e_text e = Some (c :: tx) -> contains old (c :: tx) = true -> e_wuri e = Some wuri ->
   replace_node old new (AE e eks) =
     Ok (interleave (br_of e wuri)
-          (map (fun l => AE (with_text e l) eks) (splitlines (replace old new (c :: tx))))).
+          (map (fun l => AE (with_text e l) eks) (split_nl (replace old new (c :: tx))))).
 Proof. exact replace_node_hit. Qed.
 Print Assumptions C17_nodes_produced.
 
@@ -83,7 +88,7 @@ Theorem C17_replaced_text_node_tokens :
   exists ns, replace_node old new (AE e []) = Ok ns
     /\ emit_kids v path ns i = Ok (repl_toks old new (c :: tx))
     /\ render false (repl_toks old new (c :: tx))
-       = join [10] (splitlines (replace old new (c :: tx))).
+       = join [10] (split_nl (replace old new (c :: tx))).
 Proof. exact emit_replaced_text_node. Qed.
 Print Assumptions C17_replaced_text_node_tokens.
 
